@@ -45,10 +45,16 @@ def run(prop, tier, seed, scratch, replay=None):
                         "Import", "Unlock", "Lock", "ChangePriv", "ChangePub", "ConvertWO", "SetSynced", "Restart") if '"%s"' % x in cfgtext]
     cov = vlib.op_histogram(traces, acts, cfg)
     simtr = scratch.path("sim.ndjson")
-    sim = vlib.run_tlc(scratch, "AddrMgr.tla", "MC_AddrMgr_sim.cfg", cfg_subst={"NoRollback = {}": "NoRollback = " + NOROLLBACK[prop]}, simulate=NSIM[tier], depth=31, seed=seed,
+    sim = vlib.run_tlc(scratch, "AddrMgr.tla", "MC_AddrMgr_sim.cfg", cfg_subst={"NoRollback = {}": "NoRollback = " + NOROLLBACK[prop]}, simulate=NSIM[tier] // 2, depth=31, seed=seed,
                        out_traces=simtr, tag="sim", timeout=1800)
     if sim["errors"]:
         raise vlib.Broken("simulation run failed: %s" % sim["errors"][:3])
+    # second family of walks: taproot and legacy scopes, witness-script and taproot-script imports
+    sim2 = vlib.run_tlc(scratch, "AddrMgr.tla", "MC_AddrMgr_sim2.cfg", cfg_subst={"NoRollback = {}": "NoRollback = " + NOROLLBACK[prop]}, simulate=NSIM[tier] // 2, depth=31, seed=seed,
+                        out_traces=simtr, append_traces=True, tag="sim2", timeout=1800)
+    if sim2["errors"]:
+        raise vlib.Broken("simulation run (sim2) failed: %s" % sim2["errors"][:3])
+    sim["ntraces"] += sim2["ntraces"]
     every = EVERY_C10[tier] if prop == "C10" else EVERY[tier][fam]
     vlib.run_driver(drv, ["-in", traces, "-out", report, "-prop", prop, "-seed", seed,
                           "-every", every, "-offset", seed % every, "-workers", vlib.NCPU], timeout=7200)
